@@ -1080,6 +1080,10 @@ class BootstrapElectionModel(BaseElectionModel):
             # which district effects are modeled depends on the expected units only: unexpected units are never
             # modeled, so they must not change the model the expected units get
             expected_units = all_units.iloc[: (n_train + n_test)]
+            # likewise a state that only has unexpected units has no modeled unit, so it gets no effect of its own
+            postal_code_indicator = postal_code_indicator.loc[
+                :, postal_code_indicator.iloc[: (n_train + n_test)].sum(axis=0) > 0
+            ]
 
             # drop districts that are at-large districts for a state
             postal_code_filter = expected_units.groupby("postal_code")["postal_code-district"].nunique() > 1
@@ -1105,6 +1109,9 @@ class BootstrapElectionModel(BaseElectionModel):
             )
         else:
             contest_indicator = pd.get_dummies(all_units["postal_code"])
+            # a state that only has unexpected units has no modeled unit: it gets no contest effect, so that
+            # an unexpected unit cannot change the model (and the random draws) of the expected units
+            contest_indicator = contest_indicator.loc[:, contest_indicator.iloc[: (n_train + n_test)].sum(axis=0) > 0]
             self.aggregate_names = {c: i for i, c in enumerate(contest_indicator.columns.tolist())}
             aggregate_indicator = contest_indicator.values
 
